@@ -95,6 +95,13 @@ func init() {
 		return func(in *Interp, fr *frame, a []Value) Value {
 			src := in.sliceBytes(a[1].(SliceV), 1)
 			dst := a[2].(SliceV)
+			// pierrec/lz4 contract: with a destination smaller than CompressBlockBound(len(src)) a
+			// payload that does not shrink yields (0, nil) - "incompressible" - and nothing is written
+			if bound := len(src) + len(src)/255 + 16; len(src) > 0 && dst.Len < bound {
+				if in.choice(2, "lz4.incompressible") == 1 {
+					return TupleV{in.st.Const(0, 64), IfaceV{}}
+				}
+			}
 			out := in.codecCompress(kind, src, dst.Len)
 			for i, t := range out {
 				dst.C.setByte(dst.Off+i, t)
